@@ -60,7 +60,7 @@ FLOORS = {
     'config:list-merge': 0.1,
     'config:depth>=2-override': 0.1,
     'config:file': 0.1,
-    'provider:abstract-mid': 0.0008,
+    'provider:abstract-mid': 0.0004,
     'provider:collision': 0.0006,
     'provider:lazy': 0.0008,
 }
